@@ -16,7 +16,7 @@ std::vector<std::pair<size_t, size_t>> g_cases;
 const size_t CHUNK = 24;
 
 struct Plan { size_t perRealFile; size_t perSynFile; int synVersionsPerType; int multi; int apiModels; };
-Plan plan() { return g_cfg.tier ? Plan{2400, 400, 14, 60, 40} : Plan{240, 54, 1, 8, 8}; }
+Plan plan() { return g_cfg.tier ? Plan{2400, 400, 14, 60, 40} : Plan{240, 54, 1, 8, 18}; }
 
 const char* KINDS[] = {"empty", "count", "beyond-count", "self", "parent", "root", "in-range-any", "max-1", "other-block-of-the-same-type"};
 const int NKINDS = 9;
@@ -149,8 +149,10 @@ void init() {
 		ApiOpts ao;
 		ao.segments = true;
 		ao.partitions = i % 2 == 0;
-		ao.skinned = 1;
-		ao.nv = 8 + i % 5;
+		ao.skinned = i % 3 != 2;
+		ao.tangents = true;
+		ao.shapes = 2 + i % 2;   // several shapes of one kind with different sizes: exchanging two blocks of one type matters
+		ao.nv = -1;   // random sizes: the shapes of one model differ in vertex count
 		ao.nt = 10;
 		ao.bones = 3;
 		ApiModel m = buildApiModel(mix(g_cfg.seed, 0xC15A00 + (uint64_t)i), i, &ao);
